@@ -34,7 +34,7 @@ CLAIMED = {
             "deterministic scheduler; every schedule with <= 1 preemption and, up to a cap, <= 2 preemptions is "
             "executed, plus PCT and random walks; the stamped history must be per-key linearizable (Wing-Gong "
             "search with unique values), including a final read of every key.",
-            "SC at hook granularity (memory-order-only defects invisible); uint64 keys; exhaustive only to the "
+            "SC at hook granularity (memory-order-only defects invisible); 8-byte keys as uint64 or byte strings; exhaustive only to the "
             "stated preemption bound on the generated programs.",
             "schedule enumeration (bounded-preemption search, PCT, random walk) + per-key linearizability checker",
             "5 C03"),
